@@ -112,3 +112,23 @@ def run(ctx):
     from skchange.change_detectors import MovingWindow as MW
     reuse_stream(ctx, "MovingWindow(CUSUM)", lambda: MW(bandwidth=3), ctx.n(6, 40), tuned_make=lambda: MW(bandwidth=4, threshold_scale=None, level=0.1))
     reuse_stream(ctx, "MovingWindow(GaussianVarCost)", lambda: MW(change_score=GaussianVarCost(), bandwidth=5), ctx.n(3, 20))
+    # ---- built-in score on multi-column data: transform_scores against the DEFINITION (two windows of b samples) ----
+    import numpy as _np
+    import pandas as _pd
+    from harness import direct as _direct
+    for it in range(ctx.n(12, 100)):
+        p = ctx.rng.choice([1, 2, 3])
+        b = ctx.rng.choice([1, 2, 3, 5])
+        n = ctx.rng.randint(2 * b, 2 * b + 14)
+        Xn = _np.asarray([[ctx.rng.randint(-4, 4) + 20.0 * j for j in range(p)] for _ in range(n)], dtype=float)
+        Xn[ctx.rng.randint(0, n - 1):] += ctx.rng.choice([6.0, -8.0])
+        sc = MW(bandwidth=b, threshold_scale=0.0).fit(_pd.DataFrame(Xn)).transform_scores(_pd.DataFrame(Xn)).to_numpy().ravel()
+        want = _np.zeros(n)
+        for t in range(b, n - b + 1):
+            if t < n:
+                want[t] = float(_np.sum(_direct.cusum_direct(Xn, t - b, t, t + b)))
+        ctx.case({"real-mw": it, "X": Xn.tolist(), "b": b}, nontrivial=p > 1)
+        if not _np.all(_np.abs(sc - want) <= 1e-7 * (_np.abs(sc) + _np.abs(want) + 1)):
+            ctx.violation(f"MovingWindow(CUSUM), p={p}, bandwidth={b}: transform_scores {sc.tolist()} differs from the two-sided CUSUM computed from the rows {want.tolist()}",
+                          {"n": n, "p": p, "bandwidth": b, "X": Xn.tolist(), "scores": sc.tolist(), "definition": want.tolist()},
+                          {"what": "scores-vs-definition", "multi_column": p > 1})
